@@ -50,8 +50,10 @@ class Base:
     def __init__(self, k):
         self.k = k
         self.__k = k  # a private (name-mangled) attribute: _Base__k
+        self.__seen = []
 
     def meth(RECV, v):
+        RECV.__seen.append(v)  # a private name underneath another attribute access
         w = v + RECV.__k
         return w
 
@@ -130,6 +132,7 @@ class FalsyList(list):
         super().__init__()
         self.k = k
         self._Base__k = k
+        self._Base__seen = []
 
     meth = Base.meth
     smeth = Base.smeth
